@@ -130,7 +130,7 @@ CLAIMS['C10'] = {
             'meta-theorem connecting these to every interleaving is a paper argument',
 }
 CLAIMS['C15'] = {
-    'text': 'MethodRegistry.add / _add_method / get / merge, Method.__init__ and Method.copy under contract, with the map '
+    'text': 'MethodRegistry.add / _add_method / get / merge / add_methods, Method.__init__ and Method.copy under contract, with the map '
             '_registry as the abstract view: registering stores the method under prefix+separator+name (name = explicit name '
             'or __name__), a later registration under an existing key replaces the earlier one, every other key keeps its '
             'entry (whole-view postcondition: the map changes at exactly one key), get returns exactly the stored entry or '
@@ -139,8 +139,10 @@ CLAIMS['C15'] = {
             'all clauses), that prefix.g reaches a new Method around the function other registers under g (same context '
             'settings, named prefix.g) iff g is registered in other, and is otherwise exactly what it was; for an ARBITRARY '
             'key that cannot be a prefixed name nothing changes; other itself is unchanged; Method.copy(name=) is proved to '
-            'build that Method.',
-    'note': 'ViewMethod.copy is an ASSUMED contract (getattr by a symbolic name in ViewMethod.__init__); add_methods(), view(), '
+            'build that Method. add_methods(*items): for an ARBITRARY key, the key is untouched unless an item registers it (a '
+            'Method under its own name, a plain function under prefix.__name__), and then holds what the LAST such item put '
+            'there (explicit last-writer witness function, recursive definition instantiated along the induction).',
+    'note': 'ViewMethod.copy is an ASSUMED contract (getattr by a symbolic name in ViewMethod.__init__); view(), '
             'ViewMixin.__methods__ and the dispatcher-level wrappers are not under contract - these, and merge over views, are '
             'exercised only by the BOUNDED stand-in registry_histories (all histories of up to 4 registration operations x 3 '
             'prefixes, merged 3 levels deep, key set and reached function compared with a reference model, probed through '
